@@ -1238,4 +1238,140 @@ example :
     (fun _ => ⟨by decide, lookup_none_of_noid _ _ (by decide), by decide, by decide, by decide⟩)
   exact ⟨h0, h2, by decide, by decide, by decide⟩
 
+/-- **`play` (PlayAndRepost) keeps the strong pool invariant**: conflicting pending transactions and their dependents are
+evicted (undone newest first), the block is applied on top of the remaining pool, confirmed fees move to the proposer.
+Hypotheses: block ids pairwise distinct, `e.tx i` has id `i`; the block transactions that are not pending are hash-causal
+(`hnew`: no row carries the id, no self-citation, no pending transaction cites them; a coinbase has no inputs and no fee);
+the block is valid on the chain alone — it contains the pending transactions its transactions cite (`hparents`) and
+everything pending that its pending members depend on (`hdeps`). -/
+theorem play_PoolLive (e : Env) (s : St) (lh : Int) (b : Block) (hinv : PoolLive e s)
+    (hnd : b.txs.Nodup) (hid : ∀ i ∈ b.txs, (e.tx i).id = i)
+    (hnew : ∀ i ∈ b.txs, i ∉ s.pool →
+      (∀ o, lookup s.U (i, o) = none) ∧ (∀ r ∈ (e.tx i).ins, r.tx ≠ i) ∧
+      ((e.tx i).coinbase = true → (e.tx i).ins = [] ∧ feeOf (e.tx i).outs = 0) ∧
+      (∀ j ∈ s.pool, ∀ r ∈ (e.tx j).ins, r.tx ≠ i))
+    (hparents : ∀ i ∈ b.txs, ∀ r ∈ (e.tx i).ins, r.tx ∈ s.pool → r.tx ∈ b.txs)
+    (hdeps : ∀ c ∈ b.txs, c ∈ s.pool → ∀ p ∈ s.pool, dependsOn e s.pool c p = true → p ∈ b.txs) :
+    PoolLive e (play e s lh b).1 := by
+  by_cases hok : (play e s lh b).2 = .ok
+  · obtain ⟨s2, happ, hshape⟩ := play_ok e s lh b hok
+    rw [hshape]
+    have hl := hinv.live
+    -- the evicted set: pending, outside the block, closed under dependents
+    have hevP : ∀ x ∈ playEvict e s b, x ∈ s.pool ∧ x ∉ b.txs := by
+      apply closure_induct e s.pool (fun x => x ∈ s.pool ∧ x ∉ b.txs)
+      · intro x hx
+        have h1 := (List.mem_filter.mp hx).1
+        have h2 := List.mem_filter.mp h1
+        exact ⟨h2.1, by simpa using h2.2⟩
+      · intro c hc p hp hd
+        exact ⟨hc, fun hct => hp.2 (hdeps c hct hc p (dependsOn_parent_mem e s.pool c p hd) hd)⟩
+    have hevC : ∀ p ∈ playEvict e s b, ∀ c ∈ s.pool, dependsOn e s.pool c p = true → c ∈ playEvict e s b :=
+      closure_closed e s.pool s.pool.length _ (List.length_filter_le _ _)
+    -- the undo list
+    have hndr : s.pool.reverse.Nodup := by
+      unfold List.Nodup
+      rw [List.pairwise_reverse]
+      exact List.Pairwise.imp (fun h => fun e2 => h e2.symm) hl.nodupL
+    have hevmem : ∀ x, x ∈ s.pool.reverse.filter (fun i => (playEvict e s b).contains i) ↔
+        x ∈ s.pool ∧ x ∈ playEvict e s b := by
+      intro x; simp only [List.mem_filter, List.mem_reverse, List.contains_eq_mem, decide_eq_true_eq]
+    have hL1 := undoFold_LiveSum e (s.pool.reverse.filter (fun i => (playEvict e s b).contains i)) s s.pool hinv
+      (List.Nodup.sublist List.filter_sublist hndr)
+      (fun t ht => ((hevmem t).mp ht).1)
+      (List.Pairwise.filter _ (by rw [List.pairwise_reverse]; exact hl.order))
+      (fun t ht j hj hc => by
+        obtain ⟨r, hr, hrt⟩ := hc
+        obtain ⟨htp, hte⟩ := (hevmem t).mp ht
+        refine (hevmem j).mpr ⟨hj, hevC t hte j hj ?_⟩
+        have hjt : j ≠ t := fun e2 => hl.noSelf j hj r hr (hrt.trans e2.symm)
+        unfold dependsOn
+        simp only [Bool.and_eq_true, Bool.or_eq_true, List.any_eq_true, bne_iff_ne, ne_eq,
+          List.contains_eq_mem, decide_eq_true_eq, beq_iff_eq]
+        exact ⟨⟨hjt, htp⟩, Or.inl (Or.inl ⟨r, hr, hrt⟩)⟩)
+    have hL1mem : ∀ x, x ∈ s.pool.filter
+        (fun x => !(s.pool.reverse.filter (fun i => (playEvict e s b).contains i)).contains x) ↔
+        x ∈ s.pool ∧ x ∉ playEvict e s b := by
+      intro x
+      simp only [List.mem_filter, List.contains_eq_mem, List.mem_reverse, decide_eq_true_eq,
+        Bool.not_eq_eq_eq_not, Bool.not_true, decide_eq_false_iff_not, not_and]
+      constructor
+      · intro ⟨h1, h2⟩; exact ⟨h1, h2 h1⟩
+      · intro ⟨h1, h2⟩; exact ⟨h1, fun _ => h2⟩
+    have hrun := applyBlockTxs_run e lh b.prop _ b.txs _ s2 happ
+    have hfin := blockRun_LiveSum e lh b.prop _ b.txs (playUndone e s b) s2 _ hrun hL1 hnd hid
+      (fun i hi => by
+        rw [hL1mem]
+        simp only [List.contains_eq_mem, List.mem_filter, decide_eq_true_eq]
+        constructor
+        · intro ⟨hp, _⟩; exact ⟨hp, fun he => (hevP i he).2 hi⟩
+        · intro ⟨hp, _⟩; exact ⟨hp, hi⟩)
+      (fun i hi hp => by
+        have hnp : i ∉ s.pool := by
+          intro hip
+          simp only [List.contains_eq_mem, List.mem_filter, decide_eq_true_eq, hip, hi, and_self,
+            decide_true, Bool.true_eq_false] at hp
+        obtain ⟨n1, n2, n3, n4⟩ := hnew i hi hnp
+        refine ⟨fun o => ?_, n2, n3, fun j hj => n4 j ((hL1mem j).mp hj).1⟩
+        apply undoFold_lookup_none _ _ _ _ _ (n1 o)
+        intro t ht r hr he
+        injection he with e1 _
+        exact n4 t ((hevmem t).mp ht).1 r hr e1)
+      (fun i hi r hr hrL => hparents i hi r hr ((hL1mem r.tx).mp hrL).1)
+    have hpool : s.pool.filter (fun i => !b.txs.contains i && !(playEvict e s b).contains i) =
+        (s.pool.filter (fun x => !(s.pool.reverse.filter (fun i => (playEvict e s b).contains i)).contains x)).filter
+          (fun x => !b.txs.contains x) := by
+      rw [List.filter_filter]
+      apply List.filter_congr
+      intro x hx
+      have : (s.pool.reverse.filter (fun i => (playEvict e s b).contains i)).contains x =
+          (playEvict e s b).contains x := by
+        by_cases hxe : x ∈ playEvict e s b
+        · simp [hxe, hx]
+        · simp [hxe]
+      rw [this]
+    unfold PoolLive
+    simp only
+    rw [hpool]
+    exact LiveSum.congr hfin rfl rfl
+  · rw [XV.C05.play_fail_noop e s lh b hok]; exact hinv
+
+-- non-vacuity of `play_PoolLive`: pool [1, 2, 4, 5] (2 spends an output of 1). The block [9 (award), 3, 5] contains 3, which
+-- spends the input of 1: 1 and its child 2 are evicted, 5 is confirmed, 4 stays pending. Σ U + fee(4) = total.
+example :
+    let e : Env := { txs := [
+      (1, ⟨1, false, [⟨0, 0, "u0", 5, 0, false⟩], [⟨"u1", 3, 0⟩, ⟨"$", 2, 0⟩], [], []⟩),
+      (2, ⟨2, false, [⟨1, 0, "u1", 3, 0, false⟩], [⟨"u2", 2, 0⟩, ⟨"$", 1, 0⟩], [], []⟩),
+      (3, ⟨3, false, [⟨0, 0, "u0", 5, 0, false⟩], [⟨"u3", 5, 0⟩], [], []⟩),
+      (4, ⟨4, false, [⟨0, 1, "u0", 7, 0, false⟩], [⟨"u4", 6, 0⟩, ⟨"$", 1, 0⟩], [], []⟩),
+      (5, ⟨5, false, [⟨0, 2, "u0", 4, 0, false⟩], [⟨"u5", 3, 0⟩, ⟨"$", 1, 0⟩], [], []⟩),
+      (9, ⟨9, true, [], [⟨"miner", 10, 0⟩], [], []⟩)] }
+    let s0 : St := { U := [((0, 0), ⟨"u0", 5, 0⟩), ((0, 1), ⟨"u0", 7, 0⟩), ((0, 2), ⟨"u0", 4, 0⟩)], total := 16 }
+    let s := (doTx e (doTx e (doTx e (doTx e s0 0 1).1 0 2).1 0 4).1 0 5).1
+    let b : Block := ⟨20, some 0, 1, [9, 3, 5], "miner"⟩
+    PoolLive e s ∧ s.pool = [1, 2, 4, 5] ∧ (play e s 0 b).2 = .ok ∧ PoolLive e (play e s 0 b).1 ∧
+      (play e s 0 b).1.pool = [4] ∧ sumU (play e s 0 b).1.U = 25 ∧ (play e s 0 b).1.total = 26 := by
+  intro e s0 s b
+  have h0 : PoolLive e s0 := PoolLive_of_empty e s0 (by unfold UNodup; decide) rfl (by decide)
+  have h1 := doTx_PoolLive e s0 0 1 h0
+    (fun _ => ⟨by decide, lookup_none_of_noid _ _ (by decide), by decide, by decide, by decide⟩)
+  have h2 := doTx_PoolLive e _ 0 2 h1
+    (fun _ => ⟨by decide, lookup_none_of_noid _ _ (by decide), by decide, by decide, by decide⟩)
+  have h3 := doTx_PoolLive e _ 0 4 h2
+    (fun _ => ⟨by decide, lookup_none_of_noid _ _ (by decide), by decide, by decide, by decide⟩)
+  have h4 : PoolLive e s := doTx_PoolLive e _ 0 5 h3
+    (fun _ => ⟨by decide, lookup_none_of_noid _ _ (by decide), by decide, by decide, by decide⟩)
+  refine ⟨h4, by decide, by decide, ?_, by decide, by decide, by decide⟩
+  apply play_PoolLive e s 0 b h4 (by decide) (by decide) _ (by decide) (by decide)
+  intro i hi hnp
+  have hi' : i = 9 ∨ i = 3 := by
+    simp only [b, List.mem_cons, List.not_mem_nil, or_false] at hi
+    rcases hi with rfl | rfl | rfl
+    · exact Or.inl rfl
+    · exact Or.inr rfl
+    · exact absurd (by decide) hnp
+  rcases hi' with rfl | rfl
+  · exact ⟨lookup_none_of_noid _ _ (by decide), by decide, by decide, by decide⟩
+  · exact ⟨lookup_none_of_noid _ _ (by decide), by decide, by decide, by decide⟩
+
 end XV.C02
